@@ -42,7 +42,9 @@ ASSUMPTIONS = [
 ]
 SHRINK_FIELDS = ["ops"]
 
-IDS = ["ep01", "ep02", "ep03", "ep04", "ep05", "ñ→6", "z.7", "ep01→ep02", "ep02→ep03"]
+IDS = ["ep01", "ep02", "ep03", "ep04", "ep05", "ñ→6", "z.7", "ep01→ep02", "ep02→ep03",
+       # ids whose string order is not their numeric order, and two spellings of one number
+       "ep2", "ep10", "ep1"]
 
 
 def _items(r) -> List[List[Any]]:
